@@ -47,8 +47,22 @@ class Run(RunBase):
         self.tol = 0.0
         self.sc_known = set()  # ids the current Scenario object has reserved
         self.shadow = None  # the sibling instance after a copy that keeps the original alive
+        if cfg.get("relabelled_twin"):
+            # a second, different network in the same process: the same geometry under other lanelet ids.  Answers
+            # kept per class / per module instead of per network would leak from one into the other.
+            specs = [dict(v, id=v["id"] + 1000, pred=[], succ=[]) for k, v in sorted(self.pool.items())
+                     if k.startswith("l")]
+            for sp in specs:
+                for kx in ("adjl", "adjl_same", "adjr", "adjr_same"):
+                    sp.pop(kx, None)
+            sc2 = _new_scenario()
+            sc2.add_objects(LaneletNetwork.create_from_lanelet_list([build.build_lanelet(sp) for sp in specs]))
+            self.shadow = {"sc": sc2, "sc_known": {sp["id"] for sp in specs}, "route": "create_from_lanelet_list",
+                           "present": {sp["id"]: {"left": np.array(sp["left"], dtype=float),
+                                                  "right": np.array(sp["right"], dtype=float)} for sp in specs}}
+            self.probe("second-network-with-other-lanelet-ids")
 
-    _FIELDS = ("sc", "present", "sc_known")
+    _FIELDS = ("sc", "present", "sc_known", "route")
 
     def _swap(self):
         cur = {f: getattr(self, f) for f in self._FIELDS}
@@ -465,7 +479,8 @@ class Run(RunBase):
         self.probe("restart-" + how)
 
         if op.get("keep") and how in ("deepcopy", "deepcopy_net", "pickle", "pickle_net") and self.present:
-            self.shadow = {"sc": self.sc, "present": dict(self.present), "sc_known": set(self.sc_known)}
+            self.shadow = {"sc": self.sc, "present": dict(self.present), "sc_known": set(self.sc_known),
+                           "route": self.route}
             self.probe("fork-keeps-original")
 
         def f():
@@ -630,6 +645,9 @@ def _builder(rng, run, cfg):
     all_keys = sorted(run.pool)
     keys = [k for k in all_keys if k.startswith("l")]  # "x" keys reuse ids and are only offered as clashes
     while True:
+        if run.shadow is not None and rng.chance(0.2):
+            yield {"op": "swap"}
+            continue
         r = rng.pick(cfg["routes"])
         free = [k for k in keys if run.pool[k]["id"] not in run.present]
         if r == "create_from_list":
@@ -645,6 +663,9 @@ def _builder(rng, run, cfg):
             used = [k for k in keys if run.pool[k]["id"] in run.present]
             clash = [k for k in all_keys if k.startswith("x") and run.pool[k]["id"] in run.present]
             cand = clash or used
+            if not cand:  # e.g. on the relabelled network: nothing in the pool shares an id with it
+                yield None
+                continue
             chosen = [rng.pick(cand)]
             if rng.chance(0.5) and free:
                 extra = rng.pick(free)
@@ -741,7 +762,8 @@ class C06(Property):
                        "shape-query-via-rotate_translate_local", "coincident-lanelets", "route:add-with-id-clash", "route:add_lanelet[rtree=False..True]",
                        "candidate-list-with-repeated-obstacle-id", "fork-keeps-original",
                        "continued-on-the-other-copy", "lattice-point-exactly-on-a-lanelet-border",
-                       "lattice-shape-exactly-tangent-to-a-lanelet", "bystander-draw", "bystander-derive"]
+                       "lattice-shape-exactly-tangent-to-a-lanelet", "bystander-draw", "bystander-derive",
+                       "second-network-with-other-lanelet-ids"]
     assumptions = [
         "geometric truth comes from crkit.geom (raw vertices / parameters, shapely predicates on geometry built there) "
         "with a don't-care band: clearance or penetration below 1e-7, and for circles distances in [0.99 r, r] "
@@ -756,6 +778,7 @@ class C06(Property):
         return {"steps": rng.randint(5, 24), "routes": sorted(rng.subset(ROUTES, 0.6, at_least=2)),
                 "restart_kinds": sorted(rng.subset(RESTARTS, 0.5, at_least=1)), "restarts": rng.chance(0.6),
                 "panel_after_mutation": rng.chance(0.7), "n_queriers": rng.randint(1, 2), "bystander": rng.chance(0.4),
+                "relabelled_twin": rng.chance(0.3),
                 "shape_kinds": sorted(rng.subset(["rect", "circ", "poly", "group"], 0.6, at_least=1))}
 
     def gen_universe(self, rng, cfg):
